@@ -19,12 +19,18 @@ nd, sigs = 0, {}
 for i, (c, o) in enumerate(zip(cases, outs)):
   if 'harness_exception' in o:
     print('HARNESS', o['harness_exception'], o['trace']); break
-  if i in mo:
+  if i in mo and 'model' in o:
     d = prop.compare(c, o, mo[i])
     if d:
       nd += 1
       if nd <= int(os.environ.get('SHOW', 5)):
-        a, b = o['model'], mo[i]
+        import copy as _copy
+        a, b = o['model'], _copy.deepcopy(mo[i])
+        if c.get('kind', 'list') != 'list':
+          if isinstance(b.get('construct'), list):
+            b['construct'] = sorted([[k, c03.canon(v)] for k, v in b['construct']])
+          for st in b.get('steps', []):
+            st['items'] = sorted([[k, c03.canon(v)] for k, v in st['items']])
         print('DISAGREE kind=%s spec=%s partial=%s' % (c.get('kind'), json.dumps(o['state'])[:600], c.get('partial')))
         print('   items', json.dumps(c['items'])[:300])
         if a['construct'] != b['construct']:
@@ -35,14 +41,14 @@ for i, (c, o) in enumerate(zip(cases, outs)):
               print('   step %d op=%s\n      impl =%s\n      model=%s' % (j, json.dumps(c['ops'][j])[:300], json.dumps(x)[:400], json.dumps(y)[:400]))
               print('      before=%s' % json.dumps(a['steps'][j-1]['items'] if j else a['construct'])[:300])
               break
-  f = prop.oracle(c, o)
+  f = prop.oracle(c, o) if 'model' in o else {'signature': 'impl-exception', 'what': json.dumps(o)[:300] + json.dumps(c)[:600]}
   if f:
     sigs.setdefault(f['signature'], []).append(f['what'])
 print('disagreements', nd, 'of', len(cases))
 for s, w in sorted(sigs.items()):
   print('SIG', s, len(w)); print('    ', w[0][:600])
 for i, (c, o) in enumerate(zip(cases, outs)):
-  f = prop.oracle(c, o)
-  d = prop.compare(c, o, mo[i]) if i in mo else None
+  f = prop.oracle(c, o) if 'model' in o else None
+  d = prop.compare(c, o, mo[i]) if (i in mo and 'model' in o) else None
   if f or d:
     print('CASE', json.dumps(c)); print('   compare:', (d or '')[:300])
